@@ -4,7 +4,9 @@ Correspondence: the Lean model (`Model/Attr.lean`, driver command `attr.run`) ag
 real API on every layer kind (fixtures + API-created), attribute, value pool and short edit
 sequences; getters after every edit and after save + reopen.
 Search: the property itself on the real objects (get-after-set, frame incl. pixels and
-size, persistence, well-typed getters), independent of the model.
+size, persistence, well-typed getters), independent of the model; the frame also across
+layers: scenes of two documents with fixture and API-created layers in one process, every
+other layer compared after every edit, in memory and as read back from the saved files.
 """
 from __future__ import annotations
 
@@ -786,6 +788,299 @@ def res_attached_before(res, ops, op):
     return False
 
 
+# ---- the cross-layer frame: several layers, several documents, one process -----------------------
+# "An edit leaves unrelated attributes unchanged": unrelated includes every attribute of every OTHER layer -
+# of the same document, of another document open in the same process, and of layers created afterwards.
+# A scene has >= 2 fixture layers and >= 2 API-created layers (Group.new / PixelLayer.frompil) in document A and
+# a second document B with API-created layers (and fixture layers when B is a fixture). After every edit ALL
+# dump fields of ALL other layers are compared with their values before the edit, in memory and in the files
+# written by save() before / after the edit; two freshly constructed detached layers (probes) stand for
+# "layers created later".
+MULTI_SCENES_QUICK = [("clipping-mask3.psd", "new"), ("clip-adjustment.psd", "2layers.psd"), ("hidden-groups.psd", "new")]
+MULTI_SCENES_MORE = [("16bit5x5.psd", "layers/group.psd"), ("masks3.psd", "new"), ("gradient-sizes.psd", "empty-group.psd"),
+                     ("layers-minimal/solid-color-fill.psd", "clipping-mask3.psd"), ("group.psd", "layers/pattern-fill.psb")]
+
+
+def walk_layers(g):
+    for l in g:
+        yield l
+        if l.is_group():
+            yield from walk_layers(l)
+
+
+def _pil(w, h, mode="RGB", salt=0):
+    from PIL import Image
+    im = Image.new(mode, (w, h))
+    px = im.load()
+    for y in range(h):
+        for x in range(w):
+            v = (x * 37 + y * 11 + salt * 53) % 256
+            px[x, y] = (v, 255 - v, (v * 3) % 256) if mode == "RGB" else (v, 255 - v, (v * 3) % 256, 200 - x)
+    return im
+
+
+class Scene:
+    """the documents and the flat, stable list of their layers: (document index, label, layer)"""
+
+    def __init__(self, spec):
+        from psd_tools import PSDImage
+        from psd_tools.api.layers import Group, PixelLayer
+        self.spec = spec
+        a = open_bytes(fixture_bytes(spec["a"], "plain"))
+        b = PSDImage.new("RGB", (16, 12)) if spec["b"] == "new" else open_bytes(fixture_bytes(spec["b"], "plain"))
+        self.docs = [a, b]
+        self.entries = []
+        for di, d in enumerate(self.docs):
+            for l in list(walk_layers(d)):
+                self.entries.append((di, model_kind(l), l))
+        # API-created layers: a group and two pixel layers (one inside the group) in A, a group with a pixel layer
+        # and a pixel layer at the root in B - each built by its own constructor call
+        g = Group.new("apiG", parent=a)
+        p1 = PixelLayer.frompil(_pil(4, 3, salt=1), a, "apiP1", 1, 2)
+        a.append(p1)
+        p2 = PixelLayer.frompil(_pil(3, 3, "RGBA", salt=2), a, "apiP2", 0, 0)
+        g.append(p2)
+        g2 = Group.new("apiG2", parent=b)
+        q1 = PixelLayer.frompil(_pil(5, 2, salt=3), b, "apiQ1", 2, 1)
+        g2.append(q1)
+        q2 = PixelLayer.frompil(_pil(2, 2, salt=4), b, "apiQ2", 0, 3)
+        b.append(q2)
+        for di, lab, l in ((0, "group-new", g), (0, "frompil", p1), (0, "frompil", p2),
+                           (1, "group-new", g2), (1, "frompil", q1), (1, "frompil", q2)):
+            self.entries.append((di, lab, l))
+        self.ncreated = 0
+
+    def create(self, what, di):
+        from psd_tools.api.layers import Group, PixelLayer
+        d = self.docs[di]
+        self.ncreated += 1
+        if what == "group":
+            l = Group.new("later%d" % self.ncreated, parent=d)
+            lab = "group-new"
+        else:
+            l = PixelLayer.frompil(_pil(3, 2, salt=10 + self.ncreated), d, "later%d" % self.ncreated, 0, 0)
+            d.append(l)
+            lab = "frompil"
+        self.entries.append((di, lab, l))
+
+    def snapshot(self):
+        return [dump(l) for _, _, l in self.entries]
+
+    def probes(self):
+        """two layers constructed now, detached: what a layer created at this moment looks like"""
+        from psd_tools.api.layers import Group, PixelLayer
+        out = []
+        for lab, f in (("group-new", lambda: Group.new("probe")),
+                       ("frompil", lambda: PixelLayer.frompil(_pil(2, 2, salt=9), None, "probe", 0, 0))):
+            try:
+                out.append((lab, dump(f())))
+            except Exception as e:  # noqa
+                out.append((lab, "!" + ecls(e)))
+        return out
+
+    def reopened(self):
+        """dumps of all layers as read from the files save() writes now; None for a document that cannot be
+        saved / reopened in its current state (covered by the single-layer persistence oracle)"""
+        out = [None] * len(self.entries)
+        status = []
+        for di, d in enumerate(self.docs):
+            try:
+                paths = [(i, path_of(l)) for i, (dj, _, l) in enumerate(self.entries) if dj == di]
+                q = open_bytes(save_bytes(d))
+                for i, pth in paths:
+                    out[i] = dump(at_path(q, pth)) if pth is not None else None
+                status.append("ok")
+            except Exception as e:  # noqa
+                status.append("err:" + ecls(e))
+        return out, status
+
+    def shared_parts(self):
+        """mutable element objects held by more than one layer record (the model's `Owned` invariant says: none)"""
+        seen, shared = {}, []
+        for i, (_, lab, l) in enumerate(self.entries):
+            rec = l._record
+            parts = [("record", rec)]
+            for name in ("flags", "blending_ranges", "tagged_blocks", "mask_data", "channel_info"):
+                v = getattr(rec, name, None)
+                if v is not None:
+                    parts.append((name, v))
+            tb = getattr(rec, "tagged_blocks", None)
+            if tb is not None:
+                try:
+                    for k, blk in tb.items():
+                        parts.append(("block", blk))
+                        dat = getattr(blk, "data", None)
+                        if dat is not None and not isinstance(dat, (int, str, bytes, bool, float)):
+                            parts.append(("block-data:" + hx(bytes(getattr(k, "value", k))), dat))
+                except Exception:  # noqa
+                    pass
+            for name, v in parts:
+                if id(v) in seen and seen[id(v)][0] != i:
+                    shared.append({"part": name, "layers": [seen[id(v)][0], i], "labels": [seen[id(v)][1], lab]})
+                else:
+                    seen[id(v)] = (i, lab)
+        return shared
+
+
+def multi_apply(scene, op):
+    """op = [target index, attribute op...] | ["create", "group"|"pixel", document index] -> (target or None, status)"""
+    if op[0] == "create":
+        try:
+            scene.create(op[1], op[2])
+            return None, "ok"
+        except Exception as e:  # noqa
+            return None, "err:" + ecls(e)
+    _, _, layer = scene.entries[op[0]]
+    try:
+        with warnings.catch_warnings():
+            warnings.simplefilter("ignore")
+            apply_op(layer, tuple(op[1:]), None)
+        return op[0], "ok"
+    except Exception as e:  # noqa
+        return op[0], "err:" + ecls(e)
+
+
+def run_multi(spec, ops, files=True):
+    """Run a history on a scene; returns (failures, stats). A failure = dict(sig, what, observed, expected, step)."""
+    fails, stats = [], {"steps": 0, "compared": 0, "save": {}}
+    scene = Scene(spec)
+    shared0 = scene.shared_parts()
+    prev = scene.snapshot()
+    prev_probe = scene.probes()
+    prev_re = None
+    if files:
+        prev_re, st = scene.reopened()
+        for x in st:
+            stats["save"][x] = stats["save"].get(x, 0) + 1
+    for step, op in enumerate(ops):
+        n_before = len(scene.entries)
+        tgt, st = multi_apply(scene, op)
+        stats["steps"] += 1
+        cur = scene.snapshot()
+        probe = scene.probes()
+        if op[0] == "create":
+            k, lab = "create", "group-new" if op[1] == "group" else "frompil"
+        else:
+            k, lab = op[1], scene.entries[tgt][1]
+        tdoc = scene.docs[op[2]] if op[0] == "create" else scene.docs[scene.entries[tgt][0]]
+
+        def where(j):
+            return "same-document" if scene.docs[scene.entries[j][0]] is tdoc else "other-document"
+        for j in range(n_before):
+            if j == tgt:
+                continue
+            stats["compared"] += 1
+            if cur[j] != prev[j]:
+                a, b = cur[j].split("|"), prev[j].split("|")
+                for f in range(min(len(a), len(b))):
+                    if a[f] != b[f]:
+                        fails.append(dict(
+                            sig=f"C16/{k}/{lab}/frame-other-layer/{scene.entries[j][1]}-{FIELD_NAME[f]}",
+                            what=f"{'creating a layer' if k == 'create' else 'setting ' + k + ' on a ' + lab + ' layer'} changes "
+                                 f"{FIELD_NAME[f]} of another layer ({scene.entries[j][1]}, {where(j)}, layer {j} of the scene) ({st})",
+                            observed=a[f][:120], expected=b[f][:120], step=step))
+        for (plab, a), (_, b) in zip(probe, prev_probe):
+            if a != b:
+                fa, fb = a.split("|"), b.split("|")
+                f = next((i for i in range(min(len(fa), len(fb))) if fa[i] != fb[i]), 0)
+                fails.append(dict(
+                    sig=f"C16/{k}/{lab}/frame-later-created/{plab}-{FIELD_NAME[f] if len(fa) > 1 else 'constructor'}",
+                    what=f"after {'creating a layer' if k == 'create' else 'setting ' + k + ' on a ' + lab + ' layer'}, a layer "
+                         f"constructed with the same arguments as before ({plab}) starts with another {FIELD_NAME[f]}",
+                    observed=(fa[f] if len(fa) > 1 else a)[:120], expected=(fb[f] if len(fb) > 1 else b)[:120], step=step))
+        if files:
+            re, sst = scene.reopened()
+            for x in sst:
+                stats["save"][x] = stats["save"].get(x, 0) + 1
+            if prev_re is not None:
+                for j in range(n_before):
+                    if j == tgt or re[j] is None or prev_re[j] is None:
+                        continue
+                    if re[j] != prev_re[j]:
+                        a, b = re[j].split("|"), prev_re[j].split("|")
+                        for f in range(min(len(a), len(b))):
+                            if a[f] != b[f]:
+                                fails.append(dict(
+                                    sig=f"C16/{k}/{lab}/frame-other-layer-saved/{scene.entries[j][1]}-{FIELD_NAME[f]}",
+                                    what=f"{'creating a layer' if k == 'create' else 'setting ' + k + ' on a ' + lab + ' layer'} changes "
+                                         f"{FIELD_NAME[f]} of another layer ({scene.entries[j][1]}, {where(j)}, layer {j} of the scene) "
+                                         "as read back from the file save() writes",
+                                    observed=a[f][:120], expected=b[f][:120], step=step))
+            # a document that could not be written now (entries None) gives no baseline for the next step
+            prev_re = re
+        prev, prev_probe = cur, probe
+    stats["shared"] = shared0 + [x for x in scene.shared_parts() if x not in shared0]
+    stats["layers"] = [(di, lab) for di, lab, _ in scene.entries]
+    return fails, stats
+
+
+def multi_ops(rng, nlayers, quick):
+    """systematic: every layer of the scene x one or two values of every attribute; then seeded edits and creations"""
+    ops = []
+    vals = [("visible", False), ("visible", True), ("opacity", 77), ("blend", "6d756c20", "member"), ("name", "edited"),
+            ("clip", True), ("clip", False), ("lock", 5, None), ("lock", 0, "unlock"), ("left", 3), ("top", -2), ("visible", False)]
+    for t in range(nlayers):
+        for v in vals:
+            ops.append([t] + list(v))
+    ops.append(["create", "group", 0])
+    ops.append(["create", "pixel", 1])
+    blends = blend_pool()
+    for _ in range(30 if quick else 200):
+        if rng.random() < 0.08:
+            ops.append(["create", rng.choice(["group", "pixel"]), rng.randrange(2)])
+            nlayers += 1
+            continue
+        o = rand_op(rng, blends)
+        if o[0] in ("left", "top") and abs(o[1]) > (1 << 21):
+            o = (o[0], rng.randrange(-500, 500))
+        if o[0] == "name" and (len(o[1]) > 40 or not mac_ok(o[1])):
+            o = ("name", rng.choice(["", "A", "Layer 1", "café", "x y"]))
+        ops.append([rng.randrange(nlayers)] + list(o))
+    return ops
+
+
+def check_multi(ctx, spec, ops):
+    try:
+        fails, stats = run_multi(spec, ops)
+    except core.Infra:
+        raise
+    ctx.corr_cases += 1
+    ctx.count(("multi", json.dumps(spec, sort_keys=True), len(ops)), nontrivial=True)
+    for k, v in stats["save"].items():
+        for _ in range(v):
+            ctx.hist("multi_save", k)
+    ctx.extra.setdefault("multi", []).append({"scene": spec, "steps": stats["steps"], "other_layer_comparisons": stats["compared"],
+                                              "layers": len(stats["layers"]), "save": stats["save"]})
+    for sh in stats["shared"][:5]:
+        ctx.disagree("two layer records hold the same mutable element object (the model's Owned invariant, "
+                     "Props/C16 edit_frames_other_layers, assumes every record owns its elements)", {"scene": spec, **sh})
+    for f in fails:
+        if any(g["signature"] == f["sig"] for g in ctx.failures):
+            ctx.fail(f["sig"], f["what"], None)
+            continue
+        # a small input: the creations before the failing step + the failing step alone; else the prefix
+        op = ops[f["step"]]
+        creates = [o for o in ops[:f["step"]] if o[0] == "create"]
+        cands = [creates + [op]]
+        if op[0] != "create":
+            # the same attribute set to another value first (state shared between layers may already hold the new value)
+            other = [o for o in ops[:f["step"]] if o[0] != "create" and o[1] == op[1] and o[2] != op[2]]
+            if other:
+                cands.append(creates + [[op[0]] + list(other[-1][1:]), op])
+        cands.append(creates + [o for o in ops[max(0, f["step"] - 12):f["step"]] if o[0] != "create"] + [op])
+        inp_ops = ops[:f["step"] + 1]
+        for small in cands:
+            try:
+                again, _ = run_multi(spec, small, files="-saved/" in f["sig"])
+            except Exception:  # noqa
+                continue
+            if any(g["sig"] == f["sig"] for g in again):
+                inp_ops = small
+                break
+        ctx.fail(f["sig"], f["what"], {"multi": spec, "ops": inp_ops}, f["observed"], f["expected"])
+    return stats
+
+
 # ---- the model side -------------------------------------------------------------------------
 def probe_env():
     """Which unicode-string codec and which legacy-field policy does the tree under test have?
@@ -943,6 +1238,9 @@ def run(ctx: core.Run):
         "SectionDividerSetting/ProtectedSetting/LayerFlags/LayerRecord field encodings; tied by this run's correspondence check",
         "harness/extract_c16.py: BlendMode table, tag keys, enum values and the MacRoman table regenerated from the live modules",
         "the byte layout around the modelled fields (lengths, padding, channel data, other blocks) is not part of this model (C01/C03)",
+        "Model/Attr.lean `Doc`: several layers whose LayerFlags objects are addressed (object identity); its hypothesis `Owned` "
+        "(every record owns its elements) is tied to the source by the regenerated table of attrs defaults of psd/layer_and_mask.py "
+        "(theorem record_defaults_owned) and checked by identity (`is`) on every scene of the cross-layer search",
     ]
     ctx.assumptions += [
         "unicode-string codec (luni payload) and MacRoman codec are parameters of the model with the round-trip law as hypothesis "
@@ -979,6 +1277,13 @@ def run(ctx: core.Run):
         ctx.hist("save_status", res["save"])
         compare(ctx, case, res, ans)
         check_property(ctx, case, res, env, blends)
+    # the cross-layer frame: several layers and documents in this one process
+    scenes = MULTI_SCENES_QUICK + ([] if ctx.quick else MULTI_SCENES_MORE)
+    for a, b in scenes:
+        spec = {"a": a, "b": b}
+        n = len(Scene(spec).entries)
+        ctx.hist("how", "multi-layer-scene")
+        check_multi(ctx, spec, multi_ops(ctx.rng, n, ctx.quick))
     if results:
         r = results[len(results) // 2]
         ctx.sample({"source": cases[len(results) // 2]["source"], "ops": [op_str(o)[:60] for o in r["ops"]],
@@ -990,12 +1295,20 @@ def run(ctx: core.Run):
         "fixture). Edits: every attribute x its pool (22 names incl. astral/combining/255 chars, all BlendMode members in "
         "three argument forms, 20 lock values incl. all 16 flag combinations and COMPLETE, opacity extremes, offsets incl. "
         "negative, int32 bounds and the right-edge overflow point) as single edits, before and after attaching for "
-        "API-created layers, plus seeded sequences of length <= %d. Distinct = distinct (source, op list)." % (3 if ctx.quick else 6)
+        "API-created layers, plus seeded sequences of length <= %d. Distinct = distinct (source, op list). "
+        "Cross-layer frame: scenes of two documents in one process (a fixture with >= 2 layers + 3 API-created layers; a new "
+        "document or a second fixture + 3 API-created layers); every layer x 12 attribute values, layer creations and seeded "
+        "edits; after every step ALL dump fields of ALL other layers (both documents), two freshly constructed probe layers and "
+        "the same layers read back from the files save() writes are compared with their values before the step."
+        % (3 if ctx.quick else 6)
     )
     ctx.model_coverage = {
         "modelled": ["name", "visible", "opacity", "blend_mode (layer and group path)", "left", "top", "offset", "clipping_layer",
                      "lock/unlock/locks", "TaggedBlocks.get_data/set_data", "Group.new", "PixelLayer.frompil", "append (sets _psd)",
                      "LayerRecord/LayerFlags/SectionDividerSetting/ProtectedSetting field encodings"],
+        "modelled_across_layers": ["Doc.view / Doc.edit / Doc.newLayer (flags object per record, by address)",
+                                   "edit_frames_other_layers, history_frames_other_layers, new_layer_owned, edit_owned; "
+                                   "shared_default_breaks_frame (why Owned is needed)"],
         "opaque": ["all other tagged blocks", "channel data", "bounding box of groups/artboards/shapes (position getters of these "
                    "kinds are 'derived' in the model and are not compared)"],
     }
@@ -1016,6 +1329,10 @@ def run(ctx: core.Run):
         "branch); names above U+FFFF fail at save with the one-unit-per-character codec (C19, repaired on its branch). Both are "
         "listed as known findings with their own signatures and disappear when those repairs are merged; the model follows the "
         "tree through the probed Env (env_probe in this evidence)",
+        "cross-layer frame: the oracle compares every dump field (getters, record fields, blocks, stored channel data) of every "
+        "other layer of both documents of a scene before/after each step, two probe layers constructed before/after the step "
+        "(layers created later), and the same layers read back from the files save() writes before/after the step; a failing "
+        "history is cut down to the failing step (+ the creations before it, + the same attribute set to another value first)",
         "stated in DESIGN, not proved: nothing; 'persists via C01 + C08' is replaced by a self-contained save/reopen of the "
         "record fields and the three attribute blocks (Stored), byte framing left to C01/C03",
     ]
@@ -1028,6 +1345,18 @@ def replay(ctx, data):
     print("replaying", data.get("signature"))
     if not inp:
         print("no input recorded (broken obligation):", json.dumps(data.get("observed"), indent=1)[:2000])
+        return 0
+    if "multi" in inp:
+        fails, stats = run_multi(inp["multi"], inp["ops"])
+        print("scene:", inp["multi"], "layers:", stats["layers"])
+        print("ops:", inp["ops"][-3:], "(%d in all)" % len(inp["ops"]))
+        for f in fails:
+            print("observed:", f["sig"], "-", f["what"], "| observed", f["observed"], "| expected", f["expected"])
+        if not fails:
+            print("no failure reproduced on this tree")
+        if stats["shared"]:
+            print("records sharing an element object:", stats["shared"][:4])
+        print("expected:", data.get("expected"))
         return 0
     case = {"source": inp["source"], "ops": inp["ops"]}
     res = run_real(case)
